@@ -235,6 +235,8 @@ func c14IcDrivers() []*icCfg {
 		// a second lookup, begun after the Set has returned, may JOIN the first lookup's in-flight promotion (singleflight)
 		{Name: "I10-promote-vs-set-then-get", O: o, Hy: hy(1, 1, false), Pre: demoted, Scripts: [][]icOp{{H(1)}, {T(1), H(1)}}, Post: []icOp{W, Z, H(1)}},
 		{Name: "I10L-loading-promote-vs-set-then-get", O: o, Hy: hy(1, 1, false), Loading: true, LoadCost: 1, LoadTTL: long, Pre: demoted, Scripts: [][]icOp{{L(1)}, {T(1), L(1)}}, Post: []icOp{W, Z, L(1)}},
+		// loading store: promotion racing a Delete / a Set-then-eviction, secondary calls slow (scheduling points inside them)
+		{Name: "I4L-loading-promote-vs-delete", O: o, Hy: hy(1, 1, true), Loading: true, LoadCost: 1, LoadTTL: long, Pre: demoted, Scripts: [][]icOp{{L(1)}, {D(1)}}, Post: []icOp{W, Z, L(1)}},
 		{Name: "I7-coin", O: o, Hy: hy(1, 0.5, false), Pre: demoted, Scripts: [][]icOp{{T(1), T(2)}, {H(1)}}, Post: []icOp{W, Z, H(1)}},
 	}
 }
